@@ -151,7 +151,12 @@ fn divide_keys(key_lhs: &[u8], timestamp_lhs: u64, key_rhs: &[u8], timestamp_rhs
 // the file: the data blocks that have reached it
 #[verifier::external_body]
 struct Sink { _p: u8 }
-impl Sink { uninterp spec fn blocks(&self) -> Seq<Seq<Ent>>; }
+impl Sink {
+    uninterp spec fn blocks(&self) -> Seq<Seq<Ent>>;
+    // `BufWriter::with_capacity(write_buffer_size, output)` over the file just created: nothing written yet
+    #[verifier::external_body]
+    fn fresh() -> (r: Sink) ensures r.blocks() == Seq::<Seq<Ent>>::empty() { unimplemented!() }
+}
 #[verifier::external_body]
 struct SetsumAcc { _p: u8 }
 // sst::Setsum: the entries it has been given, in order (its digest is a function of their multiset: unit setsum, C14)
@@ -164,6 +169,11 @@ impl SetsumAcc {
     #[verifier::external_body]
     fn del(&mut self, key: &[u8], timestamp: u64)
         ensures final(self).acc() == old(self).acc().push(Ent { key: key@, ts: timestamp, val: None }),
+    { unimplemented!() }
+    // `Setsum::default()`
+    #[verifier::external_body]
+    fn default() -> (r: SetsumAcc)
+        ensures r.acc() == Seq::<Ent>::empty(),
     { unimplemented!() }
     #[verifier::external_body]
     fn digest(&self) -> (r: [u8; 32])
@@ -561,6 +571,23 @@ impl SstBuilder {
 //@ end
 }
 
+
+// the state SstBuilder::new starts from (the struct literal at the end of the function; opening the file is dropped):
+// the builder invariant holds and nothing has been accepted
+//@ extract sst/src/lib.rs | impl SstBuilder :: fn new
+//@ region `Ok(SstBuilder {` ..$
+//@ region-sig <<
+fn new_state(options: SstOptions, block_options: BlockBuilderOptions) -> (r: Result<SstBuilder, SError>)
+//@ >>
+//@ region-tail <<
+//@ >>
+//@ rewrite X7 `setsum: Setsum::default(),` => `setsum: SetsumAcc::default(),`
+//@ rewrite X7 `output: BufWriter::with_capacity(write_buffer_size, output),` => `output: Sink::fresh(),`
+//@ rewrite-re X7 `\s*path: path\.as_ref\(\)\.to_path_buf\(\),` => ``
+//@ post <<
+        r is Ok && r->Ok_0.swf() && r->Ok_0.stream() == Seq::<Ent>::empty(),
+//@ >>
+//@ end
 //@ extract sst/src/lib.rs | struct FinalBlock
 //@ end
 // the part of SstBuilder::seal that fills in the final block (the metadata Sst::metadata reports): setsum of exactly the
@@ -596,6 +623,6 @@ proof fn lemma_sealed_table(b: SstBuilder)
 
 //@ contract-lemma lemma_sealed_table
 //@ contract-lemma lemma_table
-//@ min-verified 6
+//@ min-verified 7
 } // verus!
 fn main() {}
